@@ -80,7 +80,13 @@ func (d *stubDesc) genCases(g *Rng, perDesc int) {
 			}
 			return vs
 		}
-		switch r := g.Intn(12); {
+		r := g.Intn(12)
+		forcedErr := -1
+		if d.dc.tag == "std-error-names" && k < len(t.Errors) {
+			// every error of this description in turn (they share their member names with the standard errors)
+			r, forcedErr = 6, k
+		}
+		switch {
 		case r < 5:
 			c.scenario = "reply"
 			switch g.Intn(6) {
@@ -110,6 +116,10 @@ func (d *stubDesc) genCases(g *Rng, perDesc int) {
 				c.flags = 8
 			}
 			e := t.Errors[g.Intn(len(t.Errors))]
+			if forcedErr >= 0 {
+				e = t.Errors[forcedErr]
+				c.flags = 0
+			}
 			c.errName = e.Name
 			for _, f := range errFields(e) {
 				c.errVals = append(c.errVals, d.env.randVal(g, f.Type, 3, false))
